@@ -25,6 +25,36 @@ type ctxEntry struct {
 type recCtx struct {
 	ctx     *eval.Context
 	entries []ctxEntry
+	strFns  []func(*string) // the recorded one-argument string functions (called again to complete their tables)
+}
+
+// completeStrings: every one-argument string function of the context is given every string cell of the frames
+// (and null) once more, so that its recorded table covers every cell the operation could have passed to it -
+// whether or not the implementation did.
+func (rc *recCtx) completeStrings(ds ...qframe.VerifFrame) {
+	seen := map[string]bool{}
+	vals := []*string{nil}
+	for _, d := range ds {
+		for _, c := range d.Columns {
+			for _, x := range c.Strings {
+				if x != nil && !seen[*x] {
+					seen[*x] = true
+					vals = append(vals, cp(x))
+				}
+			}
+			for _, v := range c.Values {
+				if !seen[v] {
+					seen[v] = true
+					vals = append(vals, cp(&v))
+				}
+			}
+		}
+	}
+	for _, f := range rc.strFns {
+		for _, v := range vals {
+			f(cp(v))
+		}
+	}
 }
 
 func cp(x *string) *string {
@@ -40,6 +70,12 @@ func newRecCtx(extra bool) *recCtx {
 	add1 := func(t, name, tout string, fn interface{}, rec *[]string) {
 		if err := rc.ctx.SetFunc(name, fn); err != nil {
 			panic(err)
+		}
+		switch f := fn.(type) {
+		case func(*string) *string:
+			rc.strFns = append(rc.strFns, func(x *string) { f(x) })
+		case func(*string) int:
+			rc.strFns = append(rc.strFns, func(x *string) { f(x) })
 		}
 		rc.entries = append(rc.entries, ctxEntry{t, false, name, func() string {
 			return "(F1 " + t + " " + tout + " " + hlib.List(dedup(*rec)) + ")"
@@ -162,6 +198,18 @@ func newRecCtx(extra bool) *recCtx {
 	}
 	if extra {
 		// user registered functions
+		od := r()
+		add1("TString", "ordefault", "TString", func(x *string) *string {
+			xc := cp(x)
+			var y *string
+			if x == nil {
+				y = sp("n/a")
+			} else {
+				y = sp("<" + *x + ">")
+			}
+			*od = append(*od, "("+cStr(xc)+", "+cStr(cp(y))+")")
+			return y
+		}, od)
 		a := r()
 		add1("TInt", "sq", "TInt", func(x int) int { y := x * x; *a = append(*a, "("+cInt(x)+", "+cInt(y)+")"); return y }, a)
 		e := r()
@@ -185,6 +233,10 @@ type enode struct {
 }
 
 var ops1 = map[string][]string{"int": {"abs", "str", "bool", "float"}, "float": {"abs", "str", "int"}, "bool": {"!", "str", "int"}, "string": {"upper", "lower", "str", "len"}, "enum": {"upper", "str", "len"}}
+
+// extraCtx: the context of the case under construction has the user registered functions (sq, sub2, ordefault)
+var extraCtx bool
+
 var ops2 = map[string][]string{"int": {"+", "-", "*"}, "float": {"+", "-", "*", "/"}, "bool": {"&", "|", "!=", "nand"}, "string": {"+"}, "enum": {"+"}}
 
 func genConst(r *hlib.Rng, kind string) enode {
@@ -278,6 +330,12 @@ func genCall(r *hlib.Rng, cols []genCol, kind string, depth int, malformed bool)
 		l := ops2[kind]
 		op = l[r.Intn(len(l))]
 	}
+	if extraCtx && (r.Chance(1, 3) || (arity == 1 && (kind == "string" || kind == "enum") && r.Chance(1, 2))) {
+		// the user registered functions of this case's context
+		if x := map[string]string{"1int": "sq", "2int": "sub2", "1string": "ordefault", "1enum": "ordefault"}[fmt.Sprint(arity)+kind]; x != "" && arity <= 2 {
+			op = x
+		}
+	}
 	if malformed && r.Chance(1, 6) {
 		op = "bogus"
 	}
@@ -310,14 +368,21 @@ var tempShapedRef bool
 
 func evalCase(r *hlib.Rng, s *hlib.Suite) {
 	tempShapedRef = false
-	qf, cols := genFrame(r, nil)
+	nullMap := r.Chance(1, 6) // the directed sub-family "user function that gives null a value, on an enum column"
+	var need []string
+	if nullMap {
+		need = []string{"enum"}
+	}
+	qf, cols := genFrame(r, need)
 	qf, cols, hist := deriveCols(r, qf, cols, s)
 	malformed := r.Chance(1, 4)
 	caseStrings = map[string]bool{}
 	for _, sv := range strPool {
 		caseStrings[sv] = true
 	}
-	rc := newRecCtx(r.Chance(1, 3))
+	extraCtx = r.Chance(1, 2) || nullMap
+	rc := newRecCtx(extraCtx)
+	defer func() { extraCtx = false }()
 	kind := cols[r.Intn(len(cols))].kind
 	var top enode
 	switch r.Intn(8) {
@@ -325,6 +390,30 @@ func evalCase(r *hlib.Rng, s *hlib.Suite) {
 		top = genArg(r, cols, kind, 0, malformed) // Val(column) / Val(constant)
 	default:
 		top = genCall(r, cols, kind, 2, malformed)
+	}
+	if nullMap {
+		// a user function that gives null a value of its own, applied directly to a string or enum column (the row
+		// value of a null cell is what the function returns for null), alone or joined to another column
+		var sc []genCol
+		for _, c := range cols {
+			if c.kind == "enum" || c.kind == "string" {
+				sc = append(sc, c)
+			}
+		}
+		if len(sc) > 0 {
+			c := sc[r.Intn(len(sc))]
+			for _, c2 := range sc {
+				if c2.kind == "enum" && r.Chance(2, 3) {
+					c = c2
+				}
+			}
+			colE := "(EColName " + hlib.Str(c.name) + ")"
+			top = enode{qframe.Expr("ordefault", types.ColumnName(c.name)), "(EBuilt (expr_call " + hlib.Str("ordefault") + " [" + colE + "]))", "ordefault(col(" + c.name + "))"}
+			if r.Chance(1, 3) {
+				top = enode{qframe.Expr("+", top.goV, types.ColumnName(c.name)), "(EBuilt (expr_call " + hlib.Str("+") + " [" + top.coq + "; " + colE + "]))", "+(" + top.desc + ", col(" + c.name + "))"}
+			}
+			s.Count("eval-null-mapping-user-function")
+		}
 	}
 	dst := dstName(r, cols, malformed && r.Chance(1, 3))
 	if r.Chance(1, 6) {
@@ -364,6 +453,7 @@ func evalCase(r *hlib.Rng, s *hlib.Suite) {
 			}
 		}
 	}
+	rc.completeStrings(in)
 	s.Add(fmt.Sprintf("FEval %s %s %s %s %s %s", coqFrame(in), upperTable(in, od), rc.coq(), hlib.Str(dst), top.coq, coqFrame(od)), desc, qf.Len() > 0)
 }
 
